@@ -179,6 +179,16 @@ func (f *Filter) FilterRequest(
 	item, ok := f.itemFromCache(ctx, cacheKey, host)
 	f.updateCacheLookupsMetrics(ok)
 	if ok {
+		if mr, isResp := item.res.(*internal.ResultModifiedResponse); isResp {
+			// A blocked response is built with the requester's own message
+			// constructor (blocking mode, TTL), so the one in the cache, which
+			// was built for another requester, cannot be reused as is.  Only
+			// the match is taken from the cache.
+			respFam, _ := isFilterable(qt)
+
+			return f.filteredResult(req, string(mr.Rule), respFam)
+		}
+
 		return f.clonedResult(req.DNS, item.res), nil
 	}
 
